@@ -805,6 +805,11 @@ def c18_cases(tier, seed):
         yield [{"a": v, "c": "x"}, {"a": w}]
     yield [{"tags": ["1", "2"], "count": "3"}]
     yield [{"m": {"k": "1"}, "n": "2"}, {"n": "3"}]
+    # keys that are renamed on the way to attribute names (camelCase, keyword, leading digit, non-ASCII): the converter paths must
+    # name the attributes, not the JSON keys
+    yield [{"retryCount": "3", "class": ["1", "2"], "2nd": {"k": "1.5"}, "b": 1}]
+    yield [{"maxRetries": "3", "Größe": "1.5"}, {"maxRetries": None}]
+    yield [{"from": "12", "ID": ["1"]}, {"ID": []}]
 
 
 @bounded("C18", "construct_and_convert")
